@@ -59,6 +59,14 @@ json generate(uint64_t seed, uint64_t idx, int tier)
 			init["keep"] = 1;
 			steps.push_back(init);
 		}
+		if (r.chance(1, 4)) {
+			// a third context whose creation runs out of memory: the library must not release what the caller owns
+			json init = step(0, "init", 5);
+			init["flags"] = flags;
+			init["falloc"] = (uint64_t)r.range(1, 60);
+			steps.push_back(init);
+			steps.push_back(step(0, "free", 5));
+		}
 		std::vector<std::vector<OptRef>> refs = {collect_opts(r, schema["opts"]), collect_opts(r, schema["opts"])};
 		std::vector<std::string> paths; // schema paths for callback registration
 		for_each_opt(schema["opts"], [&](const std::vector<std::string> &path, const json &o) {
@@ -221,6 +229,13 @@ JudgeOut judge(const json &plan)
 	note_schedule(out, plan);
 	death_and_stdout(r, "", out.viol);
 	out.viol.erase(std::remove_if(out.viol.begin(), out.viol.end(), [](const Violation &v) { return v.cls.compare(0, 7, "stdout:") == 0; }), out.viol.end());
+	// abort() inside a context creation whose allocation was made to fail is C18's listed finding, not this property's
+	for (auto &o : r.ops)
+		if (o.death == D_ABORT && o.fail_fired) {
+			out.viol.erase(std::remove_if(out.viol.begin(), out.viol.end(), [](const Violation &v) { return v.cls.compare(0, 12, "death:abort:") == 0; }), out.viol.end());
+			out.k.add("abort_on_injected_allocation_failure_owned_by_C18");
+			return out;
+		}
 	std::string mode = plan.contains("params") ? plan["params"].value("mode", std::string("contexts")) : "contexts";
 	out.k.add("mode." + mode);
 	// schedule fingerprint: the client / op-kind sequence
@@ -231,6 +246,12 @@ JudgeOut judge(const json &plan)
 	out.k.add("probe.declarations_poisoned_and_freed");
 	if (r.died)
 		return out;
+	for (auto &o : r.ops)
+		if (o.op == "init" && o.fail_fired)
+			out.k.add("probe.context_creation_ran_out_of_memory");
+	for (auto &c : r.conservation)
+		if (c.compare(0, 12, "foreign-free") == 0)
+			out.viol.push_back({"library-freed-callers-memory", "the library released memory it does not own (" + c + "): the caller's declarations are not the library's to free", nullptr});
 	const json &steps = plan["steps"];
 	// a re-created single section equals the one cfg_init() created
 	{
@@ -344,7 +365,7 @@ Property P = [] {
 		 "context driven by two parties, then a third instance created late; every step is compared with the party's solo run; distinct = distinct (schedule, plan) pairs";
 	p.assumptions = {"options bound to caller variables (CFG_SIMPLE_*) are not generated: sharing the caller's variable is their contract",
 			 "ambient errno is pinned to 0 and texts never end inside a string or comment, so the mechanisms of C08/C04 cannot fire here"};
-	p.probes = {"declarations_poisoned_and_freed", "step_compared_with_solo_run", "third_instance_created_late", "single_section_recreated"};
+	p.probes = {"declarations_poisoned_and_freed", "step_compared_with_solo_run", "third_instance_created_late", "single_section_recreated", "context_creation_ran_out_of_memory"};
 	p.components = {{"confuse.c cfg_dupopt_array / cfg_setopt section copy / cfg_free_opt_array", "real"}, {"declaration memory", "stub: owned, poisoned and freed by the simulator"}, {"scheduler", "stub: seeded interleaving of two clients"}};
 	p.quick_seconds = 20;
 	p.thorough_seconds = 300;
